@@ -15,7 +15,18 @@ if TYPE_CHECKING:
 
 
 def get_classdef_definitions(node: ClassDef) -> list:
-    return node.defs.body
+    # Mypy plugins append the members they generate (e.g. the comparison methods of functools.total_ordering) to the
+    # class body, some of them in the iteration order of a set: bring those into an order that does not depend on the
+    # hash seed. Members that are written in the source keep their place.
+    written = []
+    generated = []
+    for definition in node.defs.body:
+        symbol = node.info.names.get(getattr(definition, "name", "")) if node.info else None
+        if symbol is not None and symbol.plugin_generated and symbol.node is definition:
+            generated.append(definition)
+        else:
+            written.append(definition)
+    return written + sorted(generated, key=lambda definition: definition.name)
 
 
 def get_funcdef_definitions(node: FuncDef) -> list:
